@@ -49,9 +49,10 @@ impl ShaGenerator {
     pub async fn finalize(mut self) -> Result<MerkleHash, JoinError> {
         let current_state = self.hasher.take();
 
+        // With no data at all, this is the SHA-256 of the empty string.
         let hasher = match current_state {
             Some(jh) => jh.await??,
-            None => return Ok(MerkleHash::default()),
+            None => Sha256::default(),
         };
 
         let sha256 = hasher.finalize();
